@@ -164,6 +164,17 @@ func finishCheck(prop, tier string, seed int64, spec PropSpec, results []jobResu
 				}
 				rf.Output = trimOut(out)
 				writeJSON(path, rf)
+				if j.Clock == "sym" && confirmConcrete(eng, jr.Cfg, v, l) {
+					// clock readings cannot be forced on the native build: the model is re-run in the
+					// engine's concrete mode (same SSA, every input and clock reading fixed)
+					rf.Confirm = "engine-concrete (clock readings cannot be forced natively)"
+					writeJSON(path, rf)
+					fmt.Printf("VIOLATION property=%s replay=%s\n", prop, path)
+					fmt.Printf("  label=%s job=%s msg=%s (confirmed in engine concrete mode)\n", l, j.Name, v.Msg)
+					nViol++
+					confirmed = true
+					break
+				}
 			}
 			if !confirmed {
 				problems = append(problems, fmt.Sprintf("job %s: SPURIOUS: %d model(s) for %s did not reproduce natively (engine or stub defect); last output: %s",
@@ -285,4 +296,23 @@ func trimOut(s string) string {
 		s = s[:600] + "…"
 	}
 	return s
+}
+
+// confirmConcrete re-runs one counterexample with every nondeterministic input fixed to the
+// model's value; the same assertion label must fail on that single concrete path.
+func confirmConcrete(eng *interp.Engine, cfg interp.Config, v interp.Violation, label string) bool {
+	saved := eng.Cfg
+	savedSum := eng.Sum
+	defer func() { eng.Cfg = saved; eng.Sum = savedSum }()
+	c := cfg
+	c.Concrete = v.Model
+	c.ConcreteChoices = v.Choices
+	c.Workers = 1
+	c.Samples = 0
+	c.Deadline = time.Now().Add(60 * time.Second)
+	eng.SetConfig(c)
+	if err := eng.Explore(); err != nil {
+		return false
+	}
+	return eng.Sum.ViolCount[label] > 0 && eng.Sum.Paths == 1
 }
